@@ -44,9 +44,19 @@ func (t *callTool) Info(context.Context) (*schema.ToolInfo, error) {
 	return &schema.ToolInfo{Name: unitName(t.c.UID), Desc: "harness tool"}, nil
 }
 
-func (t *callTool) run(arg string) (string, error) {
+func (t *callTool) run(ctx context.Context, arg string) (string, error) {
 	if t.c.DelayUs > 0 {
 		time.Sleep(time.Duration(t.c.DelayUs) * time.Microsecond)
+	}
+	if isNeighbour(ctx) {
+		// a tool call of the neighbour call (another call on the same compiled graph): nothing recorded
+		if t.c.Fails {
+			if t.c.Panics {
+				panic(panicMsg)
+			}
+			return "", errNode
+		}
+		return fmt.Sprintf("t%d[%s]", t.c.UID, arg), nil
 	}
 	if t.rr.interrupts(t.c.UID, t.c.Intr) {
 		t.rr.mu.Lock()
@@ -72,14 +82,14 @@ func (t *callTool) run(arg string) (string, error) {
 
 type invTool struct{ *callTool }
 
-func (t invTool) InvokableRun(_ context.Context, arg string, _ ...tool.Option) (string, error) {
-	return t.run(arg)
+func (t invTool) InvokableRun(ctx context.Context, arg string, _ ...tool.Option) (string, error) {
+	return t.run(ctx, arg)
 }
 
 type strTool struct{ *callTool }
 
-func (t strTool) StreamableRun(_ context.Context, arg string, _ ...tool.Option) (*schema.StreamReader[string], error) {
-	out, err := t.run(arg)
+func (t strTool) StreamableRun(ctx context.Context, arg string, _ ...tool.Option) (*schema.StreamReader[string], error) {
+	out, err := t.run(ctx, arg)
 	if err != nil {
 		return nil, err
 	}
@@ -176,9 +186,11 @@ func (rr *runRec) buildToolsSub(n *GNode) (*compose.Graph[vmap, vmap], error) {
 	g := compose.NewGraph[vmap, vmap](gopts...)
 	convIn := compose.InvokableLambda(func(ctx context.Context, v vmap) (*schema.Message, error) {
 		arg := render(v)
-		rr.mu.Lock()
-		rr.execs[in.UID] = append(rr.execs[in.UID], bodyRec{In: arg, Out: "<*schema.Message>"})
-		rr.mu.Unlock()
+		if !isNeighbour(ctx) {
+			rr.mu.Lock()
+			rr.execs[in.UID] = append(rr.execs[in.UID], bodyRec{In: arg, Out: "<*schema.Message>"})
+			rr.mu.Unlock()
+		}
 		m := &schema.Message{Role: schema.Assistant}
 		for _, c := range tn.Calls {
 			m.ToolCalls = append(m.ToolCalls, schema.ToolCall{ID: fmt.Sprintf("c%d", c.UID),
@@ -204,12 +216,12 @@ func (rr *runRec) buildToolsSub(n *GNode) (*compose.Graph[vmap, vmap], error) {
 		cfg.Tools = []tool.BaseTool{placeholderTool{}}
 	}
 	if len(unknown) > 0 {
-		cfg.UnknownToolsHandler = func(_ context.Context, name, input string) (string, error) {
+		cfg.UnknownToolsHandler = func(ctx context.Context, name, input string) (string, error) {
 			c := unknown[name]
 			if c == nil {
 				return "", fmt.Errorf("harness: no call for the unknown tool %q", name)
 			}
-			return (&callTool{c: c, rr: rr}).run(input)
+			return (&callTool{c: c, rr: rr}).run(ctx, input)
 		}
 	}
 	node, err := compose.NewToolNode(context.Background(), cfg)
@@ -224,9 +236,11 @@ func (rr *runRec) buildToolsSub(n *GNode) (*compose.Graph[vmap, vmap], error) {
 			}
 		}
 		o := vmap{fmt.Sprintf("o%d", out.UID): strings.Join(parts, "+")}
-		rr.mu.Lock()
-		rr.execs[out.UID] = append(rr.execs[out.UID], bodyRec{In: "<[]*schema.Message>", Out: render(o), OutV: o})
-		rr.mu.Unlock()
+		if !isNeighbour(ctx) {
+			rr.mu.Lock()
+			rr.execs[out.UID] = append(rr.execs[out.UID], bodyRec{In: "<[]*schema.Message>", Out: render(o), OutV: o})
+			rr.mu.Unlock()
+		}
 		return o, nil
 	}, compose.WithLambdaType(lambdaType(out)))
 	if err := g.AddLambdaNode(nodeKey(in.Key), convIn, compose.WithNodeName(unitName(in.UID))); err != nil {
